@@ -141,6 +141,11 @@ func ZZ_C17_E12() {
 	preNonce := n.nonceOf(zzAddr(sender))
 	preFee := n.app.nextBlockCtx.SumFee()
 	t := &zzTx{from: sender, amount: val, gas: gas, gasPrice: govp.GasPrice(), nonce: preNonce, signer: sender}
+	// C03 on the contract path: the transaction may be signed with another account's key
+	forged := zzverif.Choose("tx.forged", 2) == 1
+	if forged {
+		t.signer = 2
+	}
 	switch kind {
 	case 0:
 		t.typ, t.payload = ctrlertypes.TRX_CONTRACT, &ctrlertypes.TrxPayloadContract{Data: []byte{0xA0}}
@@ -160,6 +165,9 @@ func ZZ_C17_E12() {
 	postNonce := n.nonceOf(zzAddr(sender))
 	postFee := n.app.nextBlockCtx.SumFee()
 	fee := new(uint256.Int).Sub(postFee, preFee)
+	if forged {
+		zzverif.Assert(r.Code != 0, "I2 a transaction addressed to a contract takes effect only if signed by the sender's key")
+	}
 	if r.Code != 0 {
 		// E2 / C05: a failed contract transaction leaves no trace
 		for i := range watch {
